@@ -89,6 +89,8 @@ Val(ds, id, sym) ==
   CASE h = "id" -> S(IdStr(ds, id))
     [] h \in {"s", "n", "m", "f", "b", "t"} -> ds.row[id][h]
     [] h = "tags" -> IF Len(sym) = 2 /\ sym[2] \in DOMAIN ds.row[id].tags THEN ds.row[id].tags[sym[2]] ELSE Nil
+    \* `lbl`: a second map, declared with the element type string; it holds the string-valued entries of tags
+    [] h = "lbl" -> IF Len(sym) = 2 /\ sym[2] \in DOMAIN ds.row[id].tags /\ ds.row[id].tags[sym[2]].t = "s" THEN ds.row[id].tags[sym[2]] ELSE Nil
     [] h = "boss" -> IF Len(sym) = 1 THEN (IF ds.row[id].boss = "" THEN Nil ELSE S(IdStr(ds, ds.row[id].boss)))
                      ELSE IF BossOf(ds, id) = "" THEN Nil ELSE Val(ds, BossOf(ds, id), Tail(sym))
 
@@ -162,6 +164,7 @@ Test(a, symType, x) ==
 SymType(sym) ==
   LET l == sym[Len(sym)] IN
   IF \E i \in 1..Len(sym) : sym[i] = "tags" THEN "any"
+  ELSE IF \E i \in 1..Len(sym) : sym[i] = "lbl" THEN "s"
   ELSE CASE l \in {"id", "s", "boss", "roles", "peers", "places", "kids"} -> "s"
          [] l \in {"n", "m"} -> "n"
          [] l = "f" -> "f"
